@@ -3,9 +3,19 @@ only and reports concrete failing inputs with ctx.violation(..., True)."""
 import torch
 
 
+_NOTE = ("process-history clauses (results independent of earlier calls, of in-place edits of earlier results, of the default dtype in force "
+         "at construction time, of tensor identity) are exercised by real-code oracles only (harness/extra_oracles.py): tests, not theorems")
+
+
+def _note(ctx):
+    if hasattr(ctx, "assumptions") and _NOTE not in ctx.assumptions:
+        ctx.assumptions.append(_NOTE)
+
+
 def c12_identity_history(ctx, o3):
     """identity constructors return fresh, correct values whatever earlier callers did with earlier results, under
     either default dtype"""
+    _note(ctx)
     old = torch.get_default_dtype()
     try:
         for shape in [(), (3,), (2, 2)]:
@@ -39,6 +49,7 @@ def c12_identity_history(ctx, o3):
 
 def c04_device_spellings(ctx, o3, triples):
     """wigner_3j returns a fresh contiguous tensor for every spelling of dtype / device"""
+    _note(ctx)
     spell = [dict(), dict(device="cpu"), dict(device=torch.device("cpu")), dict(dtype=torch.float64, device="cpu"),
              dict(dtype=torch.float64, device=torch.device("cpu")), dict(dtype=torch.float32, device="cpu"), dict(dtype=torch.float64)]
     for t in triples:
@@ -64,6 +75,7 @@ def c04_device_spellings(ctx, o3, triples):
 
 def c17_ill_conditioned(ctx, orthonormalize):
     """orthonormalize returns orthonormal rows also for independent but nearly parallel rows"""
+    _note(ctx)
     for dt, delta, tol in [(torch.float64, 1e-8, 1e-6), (torch.float64, 1e-6, 1e-8), (torch.float32, 3e-4, 1e-2)]:
         for n in (3, 4, 5):
             # Läuchli matrix: rows e_0 + delta e_i
@@ -93,6 +105,7 @@ def c17_ill_conditioned(ctx, orthonormalize):
 
 def c09_activation_history(ctx, nn, o3):
     """the parity Activation reports for a function does not depend on what was constructed before (modules with equal repr)"""
+    _note(ctx)
     class Act(torch.nn.Module):
         def __init__(self, kind):
             super().__init__()
@@ -125,6 +138,7 @@ def c09_activation_history(ctx, nn, o3):
 def c05_dtype_history(ctx, o3):
     """float64 arguments give float64-accurate, correctly normalized values whatever the process default dtype was when
     the module was built / whatever ran before (module built under float32, fed float64; .double(); functional form)"""
+    _note(ctx)
     import math
     old = torch.get_default_dtype()
     try:
@@ -161,6 +175,7 @@ def c05_dtype_history(ctx, o3):
 def c14_deferred_prepare(ctx, e3nn, ejit, make_module):
     """prepare(f) may be created long before f is called, called repeatedly, nested and re-entered; every call must leave the
     optimisation defaults exactly as it found them (also when the factory raises) and build with codegen disabled"""
+    _note(ctx)
     class Boom(Exception):
         pass
 
@@ -216,6 +231,7 @@ def c14_deferred_prepare(ctx, e3nn, ejit, make_module):
 
 def c19_views_after_conversion(ctx, o3):
     """weight views always alias the module's CURRENT weights: ask for views, convert / replace the parameters, ask again"""
+    _note(ctx)
     def builders():
         yield "Linear(2x0e+1x1o -> 3x0e+2x1o)", lambda: o3.Linear("2x0e+1x1o", "3x0e+2x1o")
         yield "Linear with biases", lambda: o3.Linear("2x0e+1x1o", "3x0e+2x1o", biases=True)
@@ -349,6 +365,7 @@ def _dev(a, b):
 
 def api_history_and_dtype(ctx, group, dtype_clause=True, skip=()):
     """see the banner above; `skip` names entries whose dtype clause is a recorded known finding of another property"""
+    _note(ctx)
     old = torch.get_default_dtype()
     try:
         for name, fn in _api_registry(group):
@@ -431,6 +448,7 @@ def _module_registry(group):
 
 
 def module_instance_independence(ctx, group):
+    _note(ctx)
     for name, build, xs in _module_registry(group):
         torch.manual_seed(1234)
         m1 = build()
@@ -456,6 +474,7 @@ def module_instance_independence(ctx, group):
 def c03_k_spellings(ctx, o3):
     """D_from_angles(alpha,beta,gamma,k) for every spelling of k (None, python int, int tensor, bool-like float tensor) and every
     position of the scalar blocks: dtype of the angles, block diagonal of the per-irrep matrices, p**k on improper elements"""
+    _note(ctx)
     a, b, c = (torch.tensor(v, dtype=torch.float64) for v in ([0.3, -1.2], [1.1, 0.4], [-0.7, 2.9]))
     for irs in ["0e+1o", "0o+1o+2e", "1o+0o", "2x0o+1e", "0e", "0o", "1o+0e+2o+0o"]:
         I = o3.Irreps(irs)
@@ -487,6 +506,7 @@ def c03_k_spellings(ctx, o3):
 
 def c18_radius_independence(ctx, io):
     """signal_xyz / with_peaks_at depend on the direction only: radii exactly 1, within 1e-5..1e-7 of 1, tiny and huge"""
+    _note(ctx)
     g = torch.Generator().manual_seed(int(ctx.seed) + 18)
     for lmax, p_val, p_arg in [(3, 1, -1), (4, 1, 1), (2, -1, -1)]:
         st = io.SphericalTensor(lmax, p_val, p_arg)
@@ -511,6 +531,7 @@ def c18_radius_independence(ctx, io):
 
 def c07_inplace_activation_history(ctx, normalize2mom, second_moment):
     """normalize2mom constants do not depend on what was normalised before, in particular not on in-place activations"""
+    _note(ctx)
     hist = []
     inplace = [("torch.nn.ReLU(inplace=True)", torch.nn.ReLU(inplace=True)), ("torch.relu_", torch.relu_), ("lambda x: x.tanh_()", lambda x: x.tanh_()),
                ("torch.nn.SiLU(inplace=True)", torch.nn.SiLU(inplace=True))]
